@@ -142,8 +142,3 @@ def run(ctx, rep):
                     leaks.append('%s written at %s derives from %s' % (r.path.split('::')[-1], e.where(), x[1]))
     rep.check(not leaks, 'R4', 'written-data', '-', '%d write effects, none of whose data derives from an environment read' % nw, 'environment leaks into written data: %s' % sorted(set(leaks))[:4])
     rep.floor('R4', 'write_effects', nw)
-    if ctx.tier == 'thorough':
-        pw = ctx.progW
-        rootsW, fnsW = C12.scope(pw)
-        badW = [c.name for f in fnsW.values() for c in f.calls if c.name in NONDET_NAMES]
-        rep.check(not badW, 'R3', 'writers@W', '-', 'workspace configuration (trace on): no nondeterminism source in the writers outside the telemetry module', 'with trace on: %s' % badW)
